@@ -190,39 +190,7 @@ func checkC06(r *Run) {
 		}
 	}
 	// ------------------------------------------------------------------ R5
-	r.Rule("C06-R5", "unstakeAllMatureValidators: every queued address is either finished (ValidateValidatorFinishUnstaking ok -> FinishUnstakingValidator -> DeleteValidator of the same address) or skipped; the queue entry (iterator key) is deleted on every outer iteration before Next", 5)
-	if f := r.fn(posK + "unstakeAllMatureValidators"); f != nil {
-		fin := r.oneCall("C06-R5", "unstakeAll", f, posK+"FinishUnstakingValidator")
-		del := r.oneCall("C06-R5", "unstakeAll", f, posK+"DeleteValidator")
-		if fin != nil && del != nil {
-			v := argTerm(P.callTerm(fin), 2).String()
-			a := argTerm(P.callTerm(del), 2).String()
-			r.Check(strings.HasPrefix(v, posK+"GetValidator(param:k, param:ctx, "+a+")#0"), "C06-R5", "unstakeAll/finish-and-delete-same-address", P.InstrPos(del), "finishes and deletes "+a, "finishes "+v+" but deletes "+a)
-			r.Check(fin.Block() == del.Block() || sameGuards(P, fin, del), "C06-R5", "unstakeAll/finish⇔delete", P.InstrPos(del), "together", "FinishUnstakingValidator and DeleteValidator are not executed under the same condition")
-			r.Check(Precedes(fin, del), "C06-R5", "unstakeAll/finish-before-delete", P.InstrPos(del), "record deleted after pay-out", "DeleteValidator not preceded by FinishUnstakingValidator")
-			// validated ok => always finished
-			r.mustFollowEdge("C06-R5", "unstakeAll/valid=>finished", f, `^isnil\(`+q(posK+"ValidateValidatorFinishUnstaking(")+``, func(in ssa.Instruction) bool { return in == ssa.Instruction(fin) }, CallTo("github.com/tendermint/tm-db.Iterator.Next"), "FinishUnstakingValidator")
-		}
-		// queue key deleted on every outer iteration
-		isNext := CallTo("github.com/tendermint/tm-db.Iterator.Next")
-		delKey := func(in ssa.Instruction) bool {
-			ci, ok := in.(ssa.CallInstruction)
-			if !ok || !CallTo("store/types.KVStore.Delete")(in) {
-				return false
-			}
-			return argTerm(P.callTerm(ci), 1).String() == "github.com/tendermint/tm-db.Iterator.Key("+unstIt+")"
-		}
-		r.mustFollowEdge("C06-R5", "unstakeAll/queue-entry-deleted", f, `^`+q("github.com/tendermint/tm-db.Iterator.Valid("+unstIt+")")+`$`, delKey, isNext, "store.Delete(iterator.Key())")
-	}
-	if f := r.fn(posK + "DeleteValidator"); f != nil {
-		r.callersExactly("C06-R5", "DeleteValidator", r.edgesTo(f), []string{posK + "unstakeAllMatureValidators"})
-	}
-	checkStoreKeyWriters(r, "C06-R5", "x/pos/types", "AllValidatorsKey", []string{posK + "SetValidator", posK + "DeleteValidator"})
-	if f := r.fn(posK + "FinishUnstakingValidator"); f != nil {
-		if c := r.oneCall("C06-R5", "FinishUnstaking", f, posK+"deleteUnstakingValidator"); c != nil {
-			r.Check(argTerm(P.callTerm(c), 2).String() == "param:validator", "C06-R5", "FinishUnstaking/leaves-queue", P.InstrPos(c), "removes itself from the queue", "deleteUnstakingValidator receives "+argTerm(P.callTerm(c), 2).String())
-		}
-	}
+	unstakeAllRules(r, "C06-R5")
 
 	// ------------------------------------------------------------------ R6
 	powerIndexRules(r, "C06-R6")
@@ -387,6 +355,44 @@ func stakeGuards(r *Run, rule string) {
 				{"has-coins", `^x/pos/types\.AuthKeeper\.HasCoins\(param:k\.authKeeper, param:ctx, ` + q(v) + `\.Address, ` + q("types.NewCoins(list(types.NewCoin("+posK+"StakeDenom(param:k, param:ctx), "+amt+")))") + `\)$`},
 			})
 			r.Check(amt == "param:msg.Value", rule, "StakeValidator@"+n+"/amount-is-msg-value", P.InstrPos(e.Site), amt, "stakes "+amt+" instead of msg.Value")
+		}
+	}
+}
+
+// unstakeAllRules: maturity processing finishes, pays out and deletes together (C06-R5, C04-R5, C09-R5).
+func unstakeAllRules(r *Run, rule string) {
+	P := r.P
+	r.Rule(rule, "unstakeAllMatureValidators: every queued address is either finished (ValidateValidatorFinishUnstaking ok -> FinishUnstakingValidator -> DeleteValidator of the same address) or skipped; the queue entry (iterator key) is deleted on every outer iteration before Next", 5)
+	if f := r.fn(posK + "unstakeAllMatureValidators"); f != nil {
+		fin := r.oneCall(rule, "unstakeAll", f, posK+"FinishUnstakingValidator")
+		del := r.oneCall(rule, "unstakeAll", f, posK+"DeleteValidator")
+		if fin != nil && del != nil {
+			v := argTerm(P.callTerm(fin), 2).String()
+			a := argTerm(P.callTerm(del), 2).String()
+			r.Check(strings.HasPrefix(v, posK+"GetValidator(param:k, param:ctx, "+a+")#0"), rule, "unstakeAll/finish-and-delete-same-address", P.InstrPos(del), "finishes and deletes "+a, "finishes "+v+" but deletes "+a)
+			r.Check(fin.Block() == del.Block() || sameGuards(P, fin, del), rule, "unstakeAll/finish⇔delete", P.InstrPos(del), "together", "FinishUnstakingValidator and DeleteValidator are not executed under the same condition")
+			r.Check(Precedes(fin, del), rule, "unstakeAll/finish-before-delete", P.InstrPos(del), "record deleted after pay-out", "DeleteValidator not preceded by FinishUnstakingValidator")
+			// validated ok => always finished
+			r.mustFollowEdge(rule, "unstakeAll/valid=>finished", f, `^isnil\(`+q(posK+"ValidateValidatorFinishUnstaking(")+``, func(in ssa.Instruction) bool { return in == ssa.Instruction(fin) }, CallTo("github.com/tendermint/tm-db.Iterator.Next"), "FinishUnstakingValidator")
+		}
+		// queue key deleted on every outer iteration
+		isNext := CallTo("github.com/tendermint/tm-db.Iterator.Next")
+		delKey := func(in ssa.Instruction) bool {
+			ci, ok := in.(ssa.CallInstruction)
+			if !ok || !CallTo("store/types.KVStore.Delete")(in) {
+				return false
+			}
+			return argTerm(P.callTerm(ci), 1).String() == "github.com/tendermint/tm-db.Iterator.Key("+unstIt+")"
+		}
+		r.mustFollowEdge(rule, "unstakeAll/queue-entry-deleted", f, `^`+q("github.com/tendermint/tm-db.Iterator.Valid("+unstIt+")")+`$`, delKey, isNext, "store.Delete(iterator.Key())")
+	}
+	if f := r.fn(posK + "DeleteValidator"); f != nil {
+		r.callersExactly(rule, "DeleteValidator", r.edgesTo(f), []string{posK + "unstakeAllMatureValidators"})
+	}
+	checkStoreKeyWriters(r, rule, "x/pos/types", "AllValidatorsKey", []string{posK + "SetValidator", posK + "DeleteValidator"})
+	if f := r.fn(posK + "FinishUnstakingValidator"); f != nil {
+		if c := r.oneCall(rule, "FinishUnstaking", f, posK+"deleteUnstakingValidator"); c != nil {
+			r.Check(argTerm(P.callTerm(c), 2).String() == "param:validator", rule, "FinishUnstaking/leaves-queue", P.InstrPos(c), "removes itself from the queue", "deleteUnstakingValidator receives "+argTerm(P.callTerm(c), 2).String())
 		}
 	}
 }
